@@ -300,10 +300,85 @@ def helper_chain_histories(ctx):
     ctx.count("helper-chain kernels compiled in histories over two specs", n)
 
 
+NESTED_HELPER_SRC = '''
+@tweezer
+def cols():
+    # an int constant whose name is ALSO a float constant of the spec
+    return spec.get_int_constant(constant_id="dup")
+
+@tweezer
+def hop(dx: float):
+    # only ever called from inside a loop body / a branch arm
+    z = spec.get_static_trap(zone_id="traps")
+    action.move(grid.shift(z[0:2, 0:1], dx, spec.get_float_constant(constant_id="dup")))
+
+@tweezer
+def back():
+    action.move(spec.get_static_trap(zone_id="traps")[0:2, 0:1])
+
+@tweezer{DEC}
+def main(c: bool, dx: float):
+    action.set_loc(spec.get_static_trap(zone_id="traps")[0:2, 0:1])
+    action.turn_on([spec.get_int_constant(constant_id="dup") - 2, 1], action.ALL)
+    i = 0
+    for i in range(cols()):
+        hop(dx + 1.0 * i)
+        if c:
+            back()
+    if c:
+        hop(dx)
+    else:
+        action.turn_off(action.ALL, [spec.get_int_constant(constant_id="zero")])
+    action.turn_off(action.ALL, action.ALL)
+'''
+
+
+def nested_helper_cases(ctx):
+    """helper kernels with lookups that are called ONLY from loop bodies and branch arms, int constants whose name is also a float
+    constant; traced with the spec, and compiled with the spec and traced without one, under two specs: always the reference of THAT spec"""
+    from bloqade.geometry.dialects.grid import Grid
+    from bloqade.shuttle.arch import ArchSpec, Layout
+    SA = tweezer_prog.harness_spec()
+    lay = Layout(static_traps={"traps": Grid.from_positions([100.0, 103.0, 105.0, 109.0], [50.0, 51.0, 52.0]), "aux": SA.layout.static_traps["aux"]},
+                 fillable={"traps"}, has_cz={"traps"}, has_local={"aux"}, special_grid=dict(SA.layout.special_grid))
+    SB = ArchSpec(layout=lay, float_constants={"pitch": 0.75, "dup": 3.5, "origin": 0.0}, int_constants={"rows": 3, "dup": 3, "zero": 0})
+    n = 0
+    plain_src = NESTED_HELPER_SRC.replace("{DEC}", "")
+    for hist in (("A", "B", "A"), ("B", "A")):
+        for step, name in enumerate(hist):
+            X = {"A": SA, "B": SB}[name]
+            for how in ("traced with the spec", "compiled with arch_spec"):
+                for args in ((True, 0.5), (False, 1.25)):
+                    ctx.evaluations += 1
+                    n += 1
+                    rep = {"nested_src": NESTED_HELPER_SRC, "history": list(hist), "step": step, "how": how, "args": list(args)}
+                    nat = tc.run_native(plain_src, "main", args, X)
+                    gt = tc.PosTable()
+                    want = tc.path_text(tc.ref_trace(nat[1]), gt) if nat[0] == "ok" and tc.ref_trace(nat[1]) is not None else "ERR"
+                    try:
+                        if how == "traced with the spec":
+                            st, r = tc.run_impl(kernels.define(plain_src)["main"], args, X)
+                        else:
+                            st, r = tc.run_impl(kernels.define(NESTED_HELPER_SRC.replace("{DEC}", "(arch_spec=S)"), S=X)["main"], args, ArchSpec())
+                    except Exception as e:
+                        st, r = "err", f"{type(e).__name__}: {e}"
+                    got = tc.path_text(tc.abstract_path(r), gt) if st == "ok" else "ERR"
+                    if want == "ERR":
+                        ctx.obligation("the nested-helper kernel has a reference path", False, str(nat)[:200])
+                    elif got != want:
+                        ctx.fail({"kind": "nested-helper", "how": how}, rep,
+                                 f"kernel whose helpers (with lookups) are only called inside a loop / a branch, {how} {name} (step {step} of {hist}), args {args}: "
+                                 f"expected {want[:150]} got {got[:150]}" + (f" ({str(r)[:100]})" if st != "ok" else ""))
+                    else:
+                        ctx.nt(("nested-helper", name, how, args))
+    ctx.count("nested-helper kernels (lookups only inside loops/branches, a name in both constant tables) on two routes under two specs", n)
+
+
 def run(ctx):
     S = tweezer_prog.harness_spec()
     reflect_tables(ctx, S)
     helper_chain_histories(ctx)
+    nested_helper_cases(ctx)
     ctx.rule = ("random @tweezer kernels from a grammar (straight-line AOD calls, for/if, typed and untyped helper kernels, closures, "
                 "spec lookups, grids from positions/shift/scale/sub-grids/indexing, literal/variable/branch-joined/argument selectors) x "
                 "argument tuples, plus an error stream (AOD before set_loc, shape-changing move, assert, bad lookup/index); "
@@ -343,6 +418,17 @@ def run(ctx):
 
 def replay(data):
     inp = data["input"]
+    if "nested_src" in inp:
+        class C:
+            def __init__(s): s.fails, s.evaluations = [], 0
+            def fail(s, sig, rep, what): s.fails.append(what)
+            def nt(s, *a): pass
+            def count(s, *a): pass
+            def obligation(s, n, ok, log=""):
+                if not ok: s.fails.append(n)
+        c = C()
+        nested_helper_cases(c)
+        return bool(c.fails), (c.fails or ["every nested-helper kernel traces the reference of its spec"])[0][:200]
     if "chain_src" in inp:
         class C:
             def __init__(s): s.fails, s.evaluations = [], 0
